@@ -34,9 +34,9 @@ RULE = ("pairs (L, R): identical, R = L after 1-5 random insert/delete/replace/r
 ASSUMPTIONS = ["mapping key order is not data; sequence order is data except where a synchronised mode applies to that list",
                "truthfulness and coverage are judged in the positional modes only (the statement's first sentence)",
                "conservation is judged on lists whose members are all scalars, and on Arrays-of-Hashes in value/key modes"]
-REACH = [("yamlpath/differ/differ.py", 205, 700, "Differ._diff_* / synchronize_*"),
-         ("yamlpath/differ/differconfig.py", 37, 110, "DifferConfig modes")]
-SIZES = {"quick": 250000, "thorough": 3000000}
+REACH = [("yamlpath/differ/differ.py", "_diff_between,_diff_dicts,_diff_lists,_diff_sets,_diff_scalars,_diff_arrays_of_scalars,_diff_arrays_of_hashes,_diff_synced_lists,synchronize_lists_by_value,synchronize_lods_by_key,_purge_document,_add_everything", "Differ._diff_* / synchronize_*"),
+         ("yamlpath/differ/differconfig.py", "array_diff_mode,aoh_diff_mode,aoh_diff_key", "DifferConfig modes")]
+SIZES = {"quick": 150000, "thorough": 3000000}
 REQUIRED_COUNTERS = ["truth_checked", "iff_checked", "conservation_checked", "reflexive_checked"]
 ARR = ["position", "value"]
 AOH = ["position", "dpos", "value", "key", "deep"]
